@@ -26,7 +26,7 @@ CHECKS = {
   "text": "PARTIAL for sample values, proof for counts and the discrete algorithms. The specification-level decoder is an executable Coq model written from the "
           "specification and the reference code: Setup.v (headers), Codebook.v (codeword assignment, tree decode, VQ unquantisation), PacketDec.v (packet prologue, floor 1 "
           "unwrap + line rendering, floor 0 coefficients, residue formats 0/1/2, coupling, floor x residue in exact binary32 arithmetic), Blocking.v/Overlap.v (windows, overlap, "
-          "counts). Proved for all inputs: samples per packet = bs[prev]/4+bs[this]/4; the tree walk reads back any prefix-free codeword table; look-ups consume bits and never "
+          "counts). Proved for all inputs: samples per packet = bs[prev]/4+bs[this]/4; the codeword assignment of lib/sharedbook.c (_make_words, marker array) is prefix-free for every accepted set of lengths below 32 and the tree walk reads back any prefix-free codeword table - so every accepted such book decodes entry by entry; look-ups consume bits and never "
           "grow the reader; residue partition arithmetic for formats 0/1/2 stays inside the half block; floor-1 curve covers exactly n lines. Per run: random VALID set-ups over "
           "the whole feature space (floor 0/1, residue 0/1/2, ordered/sparse/single-entry/lattice/explicit/sequence books, 1-16 submaps, coupling, up to 64 modes, all block "
           "sizes 64..8192, up to 255 channels in the thorough tier) with random packets: header verdicts/fields, packet verdicts, bits left, the spectrum of every channel "
